@@ -437,6 +437,86 @@ theorem lexS_ident (c : Char) (w rest : List Char) (line : Nat) (hc : isIdStart 
     lexS (c :: (w ++ rest)) line = ⟨.id, .str (String.ofList (c :: w)), line⟩ :: lexS rest line :=
   lexS_tok c _ line _ _ _ (idstart_not_blank c hc) (scanOne_ident c w rest line hc hw hs)
 
+/-! ### unquoted text that is no identifier and no number (`PLAIN_STRING`) -/
+
+/-- a character that can start a `PLAIN_STRING` token and nothing else: no letter or underscore, no digit, sign or dot, no blank, no delimiter -/
+def PlainStart (c : Char) : Prop :=
+  isIdStart c = false ∧ isDig c = false ∧ c ≠ '-' ∧ c ≠ '+' ∧ c ≠ '.' ∧ c ≠ ' ' ∧ c ≠ '\t' ∧ isPlainStop c = false
+
+theorem spanDigits_nondigit (c : Char) (r : List Char) (h : isDig c = false) : spanDigits (c :: r) = ([], c :: r) := by
+  unfold spanDigits
+  simp [List.span, List.span.loop, h]
+
+theorem optSign_other (c : Char) (r : List Char) (h1 : c ≠ '-') (h2 : c ≠ '+') : optSign (c :: r) = (false, c :: r) := by
+  unfold optSign
+  split
+  · rename_i h; injection h with h _; exact absurd h h1
+  · rename_i h; injection h with h _; exact absurd h h2
+  · rfl
+
+theorem scanMantissa_plainStart (c : Char) (r : List Char) (hd : isDig c = false) (hdot : c ≠ '.') : scanMantissa (c :: r) = none := by
+  unfold scanMantissa
+  rw [spanDigits_nondigit c r hd]
+  simp only [List.isEmpty_nil, Bool.not_true, Bool.false_eq_true, if_false]
+  split
+  · rename_i r2 heq; injection heq with h1 _; exact absurd h1 hdot
+  · rfl
+
+theorem scanFloat_plainStart (c : Char) (r : List Char) (h : PlainStart c) : scanFloat (c :: r) = none := by
+  obtain ⟨_, hd, hm, hp, hdot, _⟩ := h
+  unfold scanFloat
+  rw [optSign_other c r hm hp]
+  simp only [scanMantissa_plainStart c r hd hdot]
+
+theorem scanInt_plainStart (c : Char) (r : List Char) (h : PlainStart c) : scanInt (c :: r) = none := by
+  obtain ⟨_, hd, hm, hp, _⟩ := h
+  unfold scanInt
+  rw [optSign_other c r hm hp]
+  simp only
+  rw [spanDigits_nondigit c r hd]
+  simp
+
+theorem plainStop_quote (c : Char) (h : isPlainStop c = false) : (c == '"' || c == '\'') = false ∧ (c == '\r' || c == '\n') = false := by
+  unfold isPlainStop at h
+  simp only [Bool.or_eq_false_iff] at h ⊢
+  obtain ⟨⟨⟨⟨_, hdq⟩, hsq⟩, hcr⟩, hlf⟩ := h
+  exact ⟨⟨hdq, hsq⟩, ⟨hcr, hlf⟩⟩
+
+/-- the text `c :: w` (first character as above, no delimiter inside, no blank at its end), followed by a delimiter or the end of the text, is one
+`PLAIN_STRING` token holding exactly that text -/
+theorem scanOne_plain (c : Char) (w rest : List Char) (line : Nat) (hc : PlainStart c) (hw : ∀ x ∈ w, isPlainStop x = false)
+    (hlast : ∀ x, (c :: w).getLast? = some x → x ≠ ' ' ∧ x ≠ '\t') (hs : StopsAt (fun d => !isPlainStop d) rest) :
+    scanOne (c :: (w ++ rest)) line = .tok ⟨.plain, .str (String.ofList (c :: w)), line⟩ rest line := by
+  have hcs := hc.2.2.2.2.2.2.2
+  obtain ⟨hq, hnl⟩ := plainStop_quote c hcs
+  unfold scanOne
+  simp only [hc.1, Bool.false_eq_true, if_false, scanFloat_plainStart c _ hc, scanInt_plainStart c _ hc, hq, hnl, hcs, Bool.not_false, if_true]
+  have hspan : (c :: (w ++ rest)).span (fun d => !isPlainStop d) = (c :: w, rest) := by
+    have := span_append_stop (fun d => !isPlainStop d) (c :: w) rest
+      (by intro x hx; rcases List.mem_cons.mp hx with rfl | hx
+          · simp [hcs]
+          · simp [hw x hx]) hs
+    simpa using this
+  rw [hspan]
+  simp only
+  have htrim : ((c :: w).reverse.dropWhile (fun d => d == ' ' || d == '\t')).reverse = c :: w := by
+    have hne : (c :: w).reverse ≠ [] := by simp
+    obtain ⟨x, t, hx⟩ := List.exists_cons_of_ne_nil hne
+    have hl : (c :: w).getLast? = some x := by
+      rw [← List.head?_reverse, hx]; rfl
+    obtain ⟨h1, h2⟩ := hlast x hl
+    rw [hx, List.dropWhile_cons]
+    have : (x == ' ' || x == '\t') = false := by simp [h1, h2]
+    rw [this]
+    simp only [Bool.false_eq_true, if_false]
+    rw [← hx, List.reverse_reverse]
+  rw [htrim]
+
+theorem lexS_plain (c : Char) (w rest : List Char) (line : Nat) (hc : PlainStart c) (hw : ∀ x ∈ w, isPlainStop x = false)
+    (hlast : ∀ x, (c :: w).getLast? = some x → x ≠ ' ' ∧ x ≠ '\t') (hs : StopsAt (fun d => !isPlainStop d) rest) :
+    lexS (c :: (w ++ rest)) line = ⟨.plain, .str (String.ofList (c :: w)), line⟩ :: lexS rest line :=
+  lexS_tok c _ line _ _ _ ⟨hc.2.2.2.2.2.1, hc.2.2.2.2.2.2.1⟩ (scanOne_plain c w rest line hc hw hlast hs)
+
 /-! ### numbers -/
 
 def signChars (neg : Bool) : List Char := if neg then ['-'] else []
